@@ -57,7 +57,7 @@ def fmt_huawei(ranges):
     return " ".join(("%d to %d" % (a, b)) if a != b else str(a) for a, b in ranges)
 
 
-def fmt_cisco(ranges):
+def _fmt_cisco(ranges):
     return ",".join(("%d-%d" % (a, b)) if a != b else str(a) for a, b in ranges)
 
 
@@ -139,8 +139,10 @@ RULES = {
 RULE = os.environ.get("VT_RULE", "trunk")
 
 
-def build_tree(rule, cfg):
+def build_tree(rule, cfg, blank=False):
+    """blank: Cisco-style lists written with a blank after each comma, as some devices print them"""
     vendor, path, prefix, style = RULES[rule]
+    fmt_cisco = (lambda rs: _fmt_cisco(rs).replace(",", ", ")) if blank else _fmt_cisco
     _, lines = cfg
     rows = []
     for i, rs in enumerate(lines):
@@ -219,6 +221,16 @@ def simulate(rule, cmds, s_old):
 
 
 def check_vlan(rule, ci, cj):
+    flavours = (False, True) if RULES[rule][3].startswith("cisco") else (False,)
+    res = None
+    for blank in flavours:
+        res = _check_vlan(rule, ci, cj, blank)
+        if not res[0]:
+            return res
+    return res
+
+
+def _check_vlan(rule, ci, cj, blank_old):
     from annet import api
     vendor, path, prefix, style = RULES[rule]
     hw, dev, rb, fmt, rev = ctx(vendor)
@@ -226,7 +238,7 @@ def check_vlan(rule, ci, cj):
     if style == "huawei-single" and (len(old_cfg[1]) > 1 or len(new_cfg[1]) > 1):
         return True, None, None, False
     s_old, s_new = set(old_cfg[0]), set(new_cfg[0])
-    old, new = build_tree(rule, old_cfg), build_tree(rule, new_cfg)
+    old, new = build_tree(rule, old_cfg, blank_old), build_tree(rule, new_cfg)
     base = {"rule": rule, "old": tree_to_json(old), "new": tree_to_json(new)}
     try:
         _, patch = api._diff_and_patch(dev, old, new, None, None, False)
@@ -408,7 +420,7 @@ def check_roundtrip(mask, flavour):
         tiny = flavour == 1
         text = ",".join(lib.cisco_collapse_vlandb(s, tiny))
         back = lib.cisco_expand_vlandb(text)
-        want_text = fmt_cisco(ref_ranges(s)) if tiny else None
+        want_text = _fmt_cisco(ref_ranges(s)) if tiny else None
     ok = back == s and (want_text is None or text == want_text)
     return ok, {"set": sorted(s), "collapsed": text, "expanded": sorted(back), "reference_text": want_text}
 
